@@ -6,6 +6,7 @@ From KV Require Import Base.Prelude Gen.ErrorCodes Gen.Consts Model.Codecs Model
 From KV Require Import Proofs.C11Extra.
 From KV Require Import Proofs.C11ExtraB.
 From KV Require Import Proofs.C11ExtraC.
+From KV Require Import Proofs.C11ExtraE.
 (* the table, for every i16 (indeed every integer): 0 is success, the declared range maps
    to the variant of that discriminant, anything else to Unknown; the enum read from
    src/error.rs declares every value of the transmuted range *)
@@ -454,3 +455,54 @@ Print Assumptions C11_offsets_exchange_io_error.
 Print Assumptions C11_list_offsets_total.
 Print Assumptions C11_fetch_offsets_total.
 Print Assumptions C11_list_offsets_ok_clean.
+
+Theorem C11_fetch_array_complete :
+  forall (A : Type) (sz : Z) (d : bytes -> res (A * bytes)) (bs : bytes) (xs : list A) (rest : bytes), zread_array sz d bs = Ok (xs, rest) -> exists (n : Z) (r0 : bytes), zread_i32 bs = Ok (n, r0) /\ Z.of_nat (length xs) = Z.max 0 n /\ reads_seq d r0 xs rest.
+Proof. exact (@C11ExtraE.C11_fetch_array_complete). Qed.
+
+Theorem C11_fetch_topic_listing_complete :
+  forall (cz : codecs) (depth : nat) (validate : bool) (reqs : fetch_tps) (bs : bytes) (ft : fetch_topic) (rest : bytes), read_topic cz depth validate reqs bs = Ok (ft, rest) -> exists (name r1 : bytes) (n : Z) (r2 : bytes), zread_str bs = Ok (name, r1) /\ zread_i32 r1 = Ok (n, r2) /\ ft_topic ft = name /\ Z.of_nat (length (ft_partitions ft)) = Z.max 0 n /\ reads_seq (read_partition cz depth validate (assoc_bytes name reqs)) r2 (ft_partitions ft) rest.
+Proof. exact (@C11ExtraE.C11_fetch_topic_listing_complete). Qed.
+
+Theorem C11_fetch_response_listing_complete :
+  forall (cz : codecs) (depth : nat) (validate : bool) (reqs : fetch_tps) (bs : bytes) (resp : fetch_resp), fetch_from_vec cz depth validate reqs bs = Ok resp -> exists (r1 : bytes) (n : Z) (r2 rest : bytes), zread_i32 bs = Ok (fr_corr resp, r1) /\ zread_i32 r1 = Ok (n, r2) /\ Z.of_nat (length (fr_topics resp)) = Z.max 0 n /\ reads_seq (read_topic cz depth validate reqs) r2 (fr_topics resp) rest.
+Proof. exact (@C11ExtraE.C11_fetch_response_listing_complete). Qed.
+
+Theorem C11_fetch_topic_entries_wire :
+  forall (cz : codecs) (depth : nat) (validate : bool) (reqs : fetch_tps) (bs : bytes) (ft : fetch_topic) (rest : bytes), read_topic cz depth validate reqs bs = Ok (ft, rest) -> forall fp : fetch_part, In fp (ft_partitions ft) -> exists (b r : bytes) (p : Z) (r1 : bytes) (e : Z) (r2 : bytes), read_partition cz depth validate (assoc_bytes (ft_topic ft) reqs) b = Ok (fp, r) /\ zread_i32 b = Ok (p, r1) /\ zread_i16 r1 = Ok (e, r2) /\ fp_partition fp = p /\ (e <> 0 -> fp_data fp = inr (kind_of e)) /\ (e = 0 -> exists dd : Z * list message, fp_data fp = inl dd).
+Proof. exact (@C11ExtraE.C11_fetch_topic_entries_wire). Qed.
+
+Theorem C11_fetch_decode_code_reported :
+  forall (cz : codecs) (d : nat) (validate : bool) (reqs : fetch_tps) (r : RespGrammar.w_topics_resp RespGrammar.w_fetch_part) (rest : list byte), RespGrammar.wf_fetch r -> (forall (t : RespGrammar.w_topic RespGrammar.w_fetch_part) (p : RespGrammar.w_fetch_part), In t (C10Facts.view_list (RespGrammar.wr_topics r)) -> In p (C10Facts.view_list (RespGrammar.wt_partitions t)) -> exists ms : list message, C02Extra.exposed cz d validate reqs (C10Facts.view_str (RespGrammar.wt_name t)) p = Ok ms) -> exists resp : fetch_resp, fetch_from_vec cz d validate reqs (RespGrammar.print_fetch r ++ rest) = Ok resp /\ codes_reported r resp.
+Proof. exact (@C11ExtraE.C11_fetch_decode_code_reported). Qed.
+
+Theorem C11_fetch_decode_position :
+  forall (cz : codecs) (d : nat) (validate : bool) (reqs : fetch_tps) (r : RespGrammar.w_topics_resp RespGrammar.w_fetch_part) (rest : list byte) (tpre : list (RespGrammar.w_topic RespGrammar.w_fetch_part)) (t : RespGrammar.w_topic RespGrammar.w_fetch_part) (tpost : list (RespGrammar.w_topic RespGrammar.w_fetch_part)) (pre : list RespGrammar.w_fetch_part) (q : RespGrammar.w_fetch_part) (post : list RespGrammar.w_fetch_part), RespGrammar.wf_fetch r -> (forall (t0 : RespGrammar.w_topic RespGrammar.w_fetch_part) (p : RespGrammar.w_fetch_part), In t0 (C10Facts.view_list (RespGrammar.wr_topics r)) -> In p (C10Facts.view_list (RespGrammar.wt_partitions t0)) -> exists ms : list message, C02Extra.exposed cz d validate reqs (C10Facts.view_str (RespGrammar.wt_name t0)) p = Ok ms) -> RespGrammar.wr_topics r = Some (tpre ++ t :: tpost) -> RespGrammar.wt_partitions t = Some (pre ++ q :: post) -> RespGrammar.wfe_error q <> 0 -> exists (resp : fetch_resp) (ft : fetch_topic), fetch_from_vec cz d validate reqs (RespGrammar.print_fetch r ++ rest) = Ok resp /\ nth_error (fr_topics resp) (length tpre) = Some ft /\ length (ft_partitions ft) = (length pre + 1 + length post)%nat /\ nth_error (ft_partitions ft) (length pre) = Some {| fp_partition := RespGrammar.wfe_partition q; fp_data := inr (kind_of (RespGrammar.wfe_error q)) |}.
+Proof. exact (@C11ExtraE.C11_fetch_decode_position). Qed.
+
+Theorem C11_fetch_messages_code_reported :
+  forall (comp : Z -> bytes -> bytes) (input : list fetch_partition) (s : st) (h : bytes) (r : RespGrammar.w_topics_resp RespGrammar.w_fetch_part) (extra : bytes) (tail : list ev_out), one_broker_answers comp input s h r extra tail -> exists (resp : fetch_resp) (s' : st), fetch_messages input s = (Ok [resp], s') /\ script s' = tail /\ codes_reported r resp.
+Proof. exact (@C11ExtraE.C11_fetch_messages_code_reported). Qed.
+
+Theorem C11_consumer_poll_code_fails :
+  forall (comp : Z -> bytes -> bytes) (k : Consumer.consumer) (s : st) (h : bytes) (r : RespGrammar.w_topics_resp RespGrammar.w_fetch_part) (extra : bytes) (tail : list ev_out) (tpre : list (RespGrammar.w_topic RespGrammar.w_fetch_part)) (t : RespGrammar.w_topic RespGrammar.w_fetch_part) (tpost : list (RespGrammar.w_topic RespGrammar.w_fetch_part)) (pre : list RespGrammar.w_fetch_part) (q : RespGrammar.w_fetch_part) (post : list RespGrammar.w_fetch_part), Consumer.k_retry k = [] -> one_broker_answers comp (poll_input k) s h r extra tail -> C10Facts.view_list (RespGrammar.wr_topics r) = tpre ++ t :: tpost -> C10Facts.view_list (RespGrammar.wt_partitions t) = pre ++ q :: post -> (forall (t' : RespGrammar.w_topic RespGrammar.w_fetch_part) (q' : RespGrammar.w_fetch_part), In t' tpre -> In q' (C10Facts.view_list (RespGrammar.wt_partitions t')) -> RespGrammar.wfe_error q' = 0) -> (forall q' : RespGrammar.w_fetch_part, In q' pre -> RespGrammar.wfe_error q' = 0) -> RespGrammar.wfe_error q <> 0 -> exists s' : st, Consumer.consumer_poll k s = (Ok (Err (EKafka (kind_of (RespGrammar.wfe_error q))), Consumer.consumer_with_client k (cl s')), s') /\ script s' = tail /\ poll_input (Consumer.consumer_with_client k (cl s')) = poll_input k.
+Proof. exact (@C11ExtraE.C11_consumer_poll_code_fails). Qed.
+
+Theorem C11_consumer_poll_ok_only_if :
+  forall (k : Consumer.consumer) (s : st) (ms : Consumer.message_sets) (k2 : Consumer.consumer) (s' : st), Consumer.consumer_poll k s = (Ok (Ok ms, k2), s') -> exists (n : Z) (resps : list fetch_resp) (k' : Consumer.consumer), Consumer.consumer_fetch k s = (Ok (n, Ok resps, k'), s') /\ Consumer.ms_responses ms = resps /\ (forall p : fetch_part, In p (all_parts resps) -> exists d : Z * list message, fp_data p = inl d).
+Proof. exact (@C11ExtraE.C11_consumer_poll_ok_only_if). Qed.
+
+Theorem C11_consumer_poll_ok_only_if_wire :
+  forall (comp : Z -> bytes -> bytes) (k : Consumer.consumer) (s : st) (h : bytes) (r : RespGrammar.w_topics_resp RespGrammar.w_fetch_part) (extra : bytes) (tail : list ev_out) (ms : Consumer.message_sets) (k2 : Consumer.consumer) (s2 : st), Consumer.k_retry k = [] -> one_broker_answers comp (poll_input k) s h r extra tail -> Consumer.consumer_poll k s = (Ok (Ok ms, k2), s2) -> forall (t : RespGrammar.w_topic RespGrammar.w_fetch_part) (q : RespGrammar.w_fetch_part), In t (C10Facts.view_list (RespGrammar.wr_topics r)) -> In q (C10Facts.view_list (RespGrammar.wt_partitions t)) -> RespGrammar.wfe_error q = 0.
+Proof. exact (@C11ExtraE.C11_consumer_poll_ok_only_if_wire). Qed.
+
+Print Assumptions C11_fetch_array_complete.
+Print Assumptions C11_fetch_topic_listing_complete.
+Print Assumptions C11_fetch_response_listing_complete.
+Print Assumptions C11_fetch_topic_entries_wire.
+Print Assumptions C11_fetch_decode_code_reported.
+Print Assumptions C11_fetch_decode_position.
+Print Assumptions C11_fetch_messages_code_reported.
+Print Assumptions C11_consumer_poll_code_fails.
+Print Assumptions C11_consumer_poll_ok_only_if.
+Print Assumptions C11_consumer_poll_ok_only_if_wire.
